@@ -109,7 +109,7 @@ theorem flatMap_elemRows_perm (ids : List Int) : ∀ (rows : List (Row V)), ids.
     exact (List.Perm.append_left _ h2).trans (List.filter_append_perm _ rows)
 
 theorem byElement_perm (rows : List (Row V)) : (byElement rows).Perm rows :=
-  flatMap_elemRows_perm _ rows (sortU_nodup _) (fun r hr => mem_sortU.2 (List.mem_map_of_mem hr))
+  flatMap_elemRows_perm _ rows (sortU_nodup _) (fun _ hr => mem_sortU.2 (List.mem_map_of_mem hr))
 
 theorem mem_byElement {rows : List (Row V)} {r : Row V} : r ∈ byElement rows ↔ r ∈ rows :=
   (byElement_perm rows).mem_iff
@@ -253,6 +253,7 @@ theorem lookup_setKey_ne {k k' : α} {v : β} (l : List (α × β)) (h : k' ≠ 
       have : setKey k v ((a, b) :: l) = (a, b) :: setKey k v l := by simp [setKey, h']
       rw [this, List.lookup_cons, List.lookup_cons, ih]
 
+omit [LawfulBEq α] in
 theorem lookup_append_of_some {k : α} {w : β} {l l' : List (α × β)} (h : l.lookup k = some w) :
     (l ++ l').lookup k = some w := by
   induction l with
@@ -312,6 +313,8 @@ structure ExportedFrom [Cell V] (g : Geometry V) (fr : Frame V) (idx : List Nat)
   ncoord : ["x", "y", "z"].take g.ncoord = coordNames fr
   ncoord_len : g.ncoord = (coordNames fr).length
   cidx : colIdx fr.cols (coordNames fr) = some idx
+  /-- the stored elements are the frame's connectivity (element ids ascending, nodes in frame order) -/
+  elems : g.elements.map (fun el => (el.1, el.2.2)) = connectivity fr.rows
 
 theorem coordNames_take (fr : Frame V) : ["x", "y", "z"].take (coordNames fr).length = coordNames fr := by
   unfold coordNames
@@ -406,7 +409,8 @@ theorem addGeometry_ok [Cell V] {f : File V} {name : String} {fr : Frame V}
         · simp only [hbe]
           exact lookup_setKey_append _
         · subst h7
-          exact ⟨meshIndex_connectivity _ _ _ _ _ _, h1, h6, by subst h2; exact coordNames_take fr, h2, h5⟩
+          exact ⟨meshIndex_connectivity _ _ _ _ _ _, h1, h6, by subst h2; exact coordNames_take fr, h2, h5,
+            by simp [List.map_map, Function.comp_def]⟩
         · simp only [hbe]
         · simp only [hbe]
 
@@ -444,92 +448,319 @@ theorem ensureGroup_facts (f : File V) (state geom : String) :
   · refine ⟨rfl, rfl, by simp, fun p hp => ?_, fun p hp => by simp [hp]⟩
     simpa using hp
 
-theorem addVariableCore_ok [Cell V] {f1 : File V} {state geom var : String} {fr : Frame V} {cols : Option (List String)}
-    {loc : Option Nat} (h : (addVariableCore f1 state geom var fr cols loc).2 = none) :
-    ∃ names l idx, resolveCols var cols = some names ∧ resolveLoc var loc = some l ∧ (l = 2 ∨ l = 6) ∧
-      colIdx fr.cols names = some idx ∧
-      (addVariableCore f1 state geom var fr cols loc).1.geoms = f1.geoms ∧
-      (addVariableCore f1 state geom var fr cols loc).1.groups = f1.groups ∧
-      (addVariableCore f1 state geom var fr cols loc).1.vars.lookup (state, geom, var)
-        = some (buildVariable l fr idx) ∧
+/-! ### element nodal variables: the stored (element, node) pairs -/
+
+theorem allDistinct_iff {l : List (Int × Int)} : allDistinct l = true ↔ l.Nodup := by
+  induction l with
+  | nil => simp [allDistinct]
+  | cons a l ih => simp [allDistinct, ih]
+
+theorem connectivity_ids (rows : List (Row V)) : (connectivity rows).map (·.1) = sortU (rows.map (·.eid)) := by
+  simp [connectivity, List.map_map, Function.comp_def]
+
+/-- The element ids of an exported geometry are the frame's element ids (ascending, distinct). -/
+theorem exported_elem_ids [Cell V] {g : Geometry V} {fr : Frame V} {cidx : List Nat} (hx : ExportedFrom g fr cidx) :
+    g.elements.map (·.1) = elemIds fr := by
+  have h := congrArg (List.map (·.1)) hx.elems
+  rw [connectivity_ids] at h
+  simp only [List.map_map, Function.comp_def] at h
+  exact h
+
+theorem exported_elem_ids_nodup [Cell V] {g : Geometry V} {fr : Frame V} {cidx : List Nat} (hx : ExportedFrom g fr cidx) :
+    (g.elements.map (·.1)).Nodup := by
+  rw [exported_elem_ids hx]; exact sortU_nodup _
+
+theorem filter_block_self (e : Int) (l : List Int) :
+    (l.map (fun n => (e, n))).filter (fun k => k.1 == e) = l.map (fun n => (e, n)) := by
+  apply List.filter_eq_self.2
+  intro k hk
+  obtain ⟨n, _, rfl⟩ := List.mem_map.1 hk
+  simp
+
+theorem filter_block_ne {e e' : Int} (h : e ≠ e') (l : List Int) :
+    (l.map (fun n => (e, n))).filter (fun k => k.1 == e') = [] := by
+  apply List.filter_eq_nil_iff.2
+  intro k hk
+  obtain ⟨n, _, rfl⟩ := List.mem_map.1 hk
+  simpa using h
+
+/-- In a list of elements with distinct ids the index entries of one element are its own block. -/
+theorem filter_blocks (els : List (Int × Nat × List Int)) (hnd : (els.map (·.1)).Nodup)
+    {el : Int × Nat × List Int} (hel : el ∈ els) :
+    (els.flatMap (fun el => el.2.2.map (fun n => (el.1, n)))).filter (fun k => k.1 == el.1)
+      = el.2.2.map (fun n => (el.1, n)) := by
+  induction els with
+  | nil => cases hel
+  | cons a els ih =>
+    rw [List.map_cons, List.nodup_cons] at hnd
+    rw [List.flatMap_cons, List.filter_append]
+    rcases List.mem_cons.1 hel with rfl | hel'
+    · rw [filter_block_self]
+      have : (els.flatMap (fun el => el.2.2.map (fun n => (el.1, n)))).filter (fun k => k.1 == el.1) = [] := by
+        apply List.filter_eq_nil_iff.2
+        intro k hk
+        obtain ⟨b, hb, hk⟩ := List.mem_flatMap.1 hk
+        obtain ⟨n, _, rfl⟩ := List.mem_map.1 hk
+        have : b.1 ≠ el.1 := by
+          intro heq
+          exact hnd.1 (heq ▸ List.mem_map_of_mem hb)
+        simpa using this
+      rw [this, List.append_nil]
+    · have hne : a.1 ≠ el.1 := by
+        intro heq
+        exact hnd.1 (heq ▸ List.mem_map_of_mem hel')
+      rw [filter_block_ne hne, List.nil_append]
+      exact ih hnd.2 hel'
+
+/-- The index the importer rebuilds for an element nodal variable is the exporter's target order. -/
+theorem varIndex_eq_enTarget (g : Geometry V) (vfr : Frame V) (v : Variable V)
+    (hnd : (g.elements.map (·.1)).Nodup) (hids : v.ids = (enElements g vfr).map (·.1)) :
+    varIndex g v = enTarget g vfr := by
+  unfold varIndex enTarget meshIndex
+  rw [hids, List.flatMap_map]
+  apply List.flatMap_congr
+  intro el hel
+  exact filter_blocks g.elements hnd (List.mem_of_mem_filter hel)
+
+theorem rowAt_of_mem {rows : List (Row V)} {k : Int × Int} (hk : k ∈ rows.map Row.key) :
+    ∃ r, rowAt rows k = some r ∧ r ∈ rows ∧ r.key = k := by
+  unfold rowAt
+  cases hf : rows.find? (fun r => r.key == k) with
+  | none =>
+    rw [List.find?_eq_none] at hf
+    obtain ⟨r, hr, rfl⟩ := List.mem_map.1 hk
+    have := hf r hr
+    simp at this
+  | some r =>
+    exact ⟨r, rfl, List.mem_of_find?_eq_some hf, by simpa using List.find?_some hf⟩
+
+theorem rowAt_own {rows : List (Row V)} (hnd : (rows.map Row.key).Nodup) {r : Row V} (hr : r ∈ rows) :
+    rowAt rows r.key = some r :=
+  find_key_of_nodup hnd (fun _ => Iff.rfl) hr
+
+theorem length_filterMap_of_isSome {α β : Type} (F : α → Option β) (l : List α) (h : ∀ k ∈ l, (F k).isSome = true) :
+    (l.filterMap F).length = l.length := by
+  induction l with
+  | nil => rfl
+  | cons a l ih =>
+    obtain ⟨b, hb⟩ := Option.isSome_iff_exists.1 (h a (by simp))
+    rw [List.filterMap_cons_some hb, List.length_cons, List.length_cons, ih (fun k hk => h k (by simp [hk]))]
+
+theorem lookup_zip_filterMap {α β : Type} [BEq α] [LawfulBEq α] (F : α → Option β) (l : List α)
+    (h : ∀ k ∈ l, (F k).isSome = true) (k : α) :
+    (l.zip (l.filterMap F)).lookup k = if k ∈ l then F k else none := by
+  induction l with
+  | nil => simp
+  | cons a l ih =>
+    obtain ⟨b, hb⟩ := Option.isSome_iff_exists.1 (h a (by simp))
+    have ih' := ih (fun k hk => h k (by simp [hk]))
+    rw [List.filterMap_cons_some hb, List.zip_cons_cons, List.lookup_cons]
+    by_cases hka : k = a
+    · subst hka; simp [hb]
+    · have h' : (k == a) = false := by simpa using hka
+      rw [h', ih']
+      simp [hka]
+
+/-- What `buildVariable` returns for ELEMENT_NODAL, and what it has checked. -/
+theorem buildVariable_six_some [Cell V] {g : Geometry V} {vfr : Frame V} {idx : List Nat} {v : Variable V}
+    (h : buildVariable 6 g vfr idx = some v) :
+    v = ⟨6, idx.length, (enElements g vfr).map (·.1),
+          (enTarget g vfr).filterMap (fun k => (rowAt vfr.rows k).map (selRow idx))⟩ ∧
+      (vfr.rows.map Row.key).Nodup ∧ (∀ k ∈ enTarget g vfr, k ∈ vfr.rows.map Row.key) ∧
+      (vfr.rows.map Row.key).length = (enTarget g vfr).length := by
+  unfold buildVariable at h
+  rw [if_neg (by decide)] at h
+  dsimp only at h
+  split at h
+  · rename_i hc
+    simp only [Bool.and_eq_true, List.all_eq_true, beq_iff_eq] at hc
+    obtain ⟨⟨h1, h2⟩, h3⟩ := hc
+    refine ⟨(Option.some.inj h).symm, allDistinct_iff.1 h1, fun k hk => ?_, h3⟩
+    simpa using h2 k hk
+  · cases h
+
+theorem buildVariable_six_of_perm [Cell V] {g : Geometry V} {vfr : Frame V} (idx : List Nat)
+    (hnd : (vfr.rows.map Row.key).Nodup) (hp : (vfr.rows.map Row.key).Perm (enTarget g vfr)) :
+    buildVariable 6 g vfr idx = some ⟨6, idx.length, (enElements g vfr).map (·.1),
+          (enTarget g vfr).filterMap (fun k => (rowAt vfr.rows k).map (selRow idx))⟩ := by
+  have h1 := allDistinct_iff.2 hnd
+  have h2 : (enTarget g vfr).all (fun k => (vfr.rows.map Row.key).contains k) = true := by
+    rw [List.all_eq_true]
+    intro k hk
+    simpa using hp.mem_iff.2 hk
+  have h3 : ((vfr.rows.map Row.key).length == (enTarget g vfr).length) = true := by
+    simpa using hp.length_eq
+  unfold buildVariable
+  rw [if_neg (by decide)]
+  simp only [h1, h2, h3, Bool.and_self, if_true]
+
+/-- `buildVariable` looks at the geometry's elements only through their ids and connectivities. -/
+theorem enElements_map (g : Geometry V) (vfr : Frame V) :
+    (enElements g vfr).map (fun el => (el.1, el.2.2))
+      = (g.elements.map (fun el => (el.1, el.2.2))).filter (fun c => (vfr.rows.map (·.eid)).contains c.1) := by
+  unfold enElements
+  rw [List.filter_map]
+  rfl
+
+theorem enTarget_via_map (g : Geometry V) (vfr : Frame V) :
+    enTarget g vfr = ((enElements g vfr).map (fun el => (el.1, el.2.2))).flatMap (fun c => c.2.map (fun n => (c.1, n))) := by
+  unfold enTarget
+  rw [List.flatMap_map]
+
+theorem buildVariable_congr [Cell V] {g g' : Geometry V}
+    (h : g.elements.map (fun el => (el.1, el.2.2)) = g'.elements.map (fun el => (el.1, el.2.2)))
+    (l : Nat) (vfr : Frame V) (idx : List Nat) : buildVariable l g vfr idx = buildVariable l g' vfr idx := by
+  have h1 : (enElements g vfr).map (fun el => (el.1, el.2.2)) = (enElements g' vfr).map (fun el => (el.1, el.2.2)) := by
+    rw [enElements_map, enElements_map, h]
+  have h2 : enTarget g vfr = enTarget g' vfr := by rw [enTarget_via_map, enTarget_via_map, h1]
+  have h3 : (enElements g vfr).map (·.1) = (enElements g' vfr).map (·.1) := by
+    have := congrArg (List.map (·.1)) h1
+    simpa [List.map_map, Function.comp_def] using this
+  unfold buildVariable
+  rw [h2, h3]
+
+/-- When every element of the geometry's frame occurs in the variable's frame, the target order is the whole mesh index. -/
+theorem enTarget_of_covering [Cell V] {g : Geometry V} {fr vfr : Frame V} {cidx : List Nat} (hx : ExportedFrom g fr cidx)
+    (hsub : ∀ r ∈ fr.rows, r.eid ∈ vfr.rows.map (·.eid)) :
+    enElements g vfr = g.elements ∧ enTarget g vfr = (byElement fr.rows).map Row.key := by
+  have h1 : enElements g vfr = g.elements := by
+    unfold enElements
+    apply List.filter_eq_self.2
+    intro el hel
+    have : el.1 ∈ elemIds fr := by
+      rw [← exported_elem_ids hx]; exact List.mem_map_of_mem hel
+    unfold elemIds at this
+    rw [mem_sortU] at this
+    obtain ⟨r, hr, hre⟩ := List.mem_map.1 this
+    have := hsub r hr
+    rw [hre] at this
+    simpa using this
+  refine ⟨h1, ?_⟩
+  rw [← hx.mesh]
+  unfold enTarget meshIndex
+  rw [h1]
+
+theorem eids_of_keys_perm {fr vfr : Frame V} (hperm : (vfr.rows.map Row.key).Perm (fr.rows.map Row.key)) :
+    ∀ r ∈ fr.rows, r.eid ∈ vfr.rows.map (·.eid) := by
+  intro r hr
+  have : r.key ∈ vfr.rows.map Row.key := hperm.mem_iff.2 (List.mem_map_of_mem hr)
+  obtain ⟨r', hr', hk⟩ := List.mem_map.1 this
+  have : r'.eid = r.eid := congrArg Prod.fst hk
+  exact this ▸ List.mem_map_of_mem hr'
+
+/-- A variable frame whose keys are a rearrangement of the (valid) geometry frame's keys passes the checks of
+`buildVariable` (`buildVariable_six_of_perm`). -/
+theorem buildVariable_six_of_keys_perm [Cell V] {g : Geometry V} {fr vfr : Frame V} {cidx : List Nat}
+    (hx : ExportedFrom g fr cidx) (hvalid : (fr.rows.map Row.key).Nodup)
+    (hperm : (vfr.rows.map Row.key).Perm (fr.rows.map Row.key)) :
+    (vfr.rows.map Row.key).Nodup ∧ (vfr.rows.map Row.key).Perm (enTarget g vfr) := by
+  refine ⟨hperm.nodup_iff.2 hvalid, ?_⟩
+  rw [(enTarget_of_covering hx (eids_of_keys_perm hperm)).2]
+  exact hperm.trans ((byElement_perm fr.rows).map Row.key).symm
+
+/-! ### `add_variable` -/
+
+theorem addVariableCore_ok [Cell V] {f1 : File V} {g : Geometry V} {state geom var : String} {fr : Frame V}
+    {names : List String} {l : Nat} (h : (addVariableCore f1 g state geom var fr names l).2 = none) :
+    ∃ idx v, colIdx fr.cols names = some idx ∧ buildVariable l g fr idx = some v ∧
+      (addVariableCore f1 g state geom var fr names l).1.geoms = f1.geoms ∧
+      (addVariableCore f1 g state geom var fr names l).1.groups = f1.groups ∧
+      (addVariableCore f1 g state geom var fr names l).1.vars.lookup (state, geom, var) = some v ∧
       f1.vars.lookup (state, geom, var) = none ∧
-      (addVariableCore f1 state geom var fr cols loc).1.vars
-        = setKey (state, geom, var) (buildVariable l fr idx)
-            (f1.vars ++ [((state, geom, var), (⟨l, names.length, [], []⟩ : Variable V))]) ∧
-      varIdsFit l fr = true := by
+      (addVariableCore f1 g state geom var fr names l).1.vars
+        = setKey (state, geom, var) v
+            (f1.vars ++ [((state, geom, var), (⟨l, names.length, [], []⟩ : Variable V))]) := by
   unfold addVariableCore at h ⊢
   split at h
   · simp at h
   · rename_i hvar
     simp only [hvar, if_false, Bool.false_eq_true]
+    dsimp only at h ⊢
     split at h
     · simp at h
-    · rename_i names hnames
+    · rename_i idx hidx
       split at h
       · simp at h
-      · rename_i l hl
+      · rename_i hobj
         split at h
         · simp at h
-        · rename_i hl26
-          dsimp only at h ⊢
-          split at h
-          · simp at h
-          · rename_i hfit
-            split at h
-            · simp at h
-            · rename_i idx hidx
-              split at h
-              · simp at h
-              · rename_i hobj
-                refine ⟨names, l, idx, hnames, hl, by omega, hidx, ?_, ?_, ?_, lookup_isSome_false hvar, ?_,
-                  by simpa using hfit⟩
-                · simp only [hnames, hl, hl26, if_false, hidx, hfit, hobj, Bool.false_eq_true]
-                · simp only [hnames, hl, hl26, if_false, hidx, hfit, hobj, Bool.false_eq_true]
-                · simp only [hnames, hl, hl26, if_false, hidx, hfit, hobj, Bool.false_eq_true]
-                  exact lookup_setKey_append _
-                · simp only [hnames, hl, hl26, if_false, hidx, hfit, hobj, Bool.false_eq_true]
+        · rename_i v hv
+          refine ⟨idx, v, hidx, hv, ?_, ?_, ?_, lookup_isSome_false hvar, ?_⟩
+          · simp only [hidx, hobj, hv, if_false, Bool.false_eq_true]
+          · simp only [hidx, hobj, hv, if_false, Bool.false_eq_true]
+          · simp only [hidx, hobj, hv, if_false, Bool.false_eq_true]
+            exact lookup_setKey_append _
+          · simp only [hidx, hobj, hv, if_false, Bool.false_eq_true]
 
-theorem addVariableCore_err [Cell V] {f1 : File V} {state geom var : String} {fr : Frame V} {cols : Option (List String)}
-    {loc : Option Nat} {e : Err} (h : (addVariableCore f1 state geom var fr cols loc).2 = some e) :
-    (addVariableCore f1 state geom var fr cols loc).1 = f1 := by
+theorem addVariableCore_err [Cell V] {f1 : File V} {g : Geometry V} {state geom var : String} {fr : Frame V}
+    {names : List String} {l : Nat} {e : Err} (h : (addVariableCore f1 g state geom var fr names l).2 = some e) :
+    (addVariableCore f1 g state geom var fr names l).1 = f1 := by
   unfold addVariableCore at h ⊢
   split
   · rfl
   · rename_i hvar
     have hvar' : f1.vars.lookup (state, geom, var) = none := lookup_isSome_false hvar
+    dsimp only
     split
-    · rfl
+    · simp [eraseKey_append_self hvar']
     · split
-      · rfl
+      · simp [eraseKey_append_self hvar']
       · split
-        · rfl
-        · dsimp only
-          split
-          · simp [eraseKey_append_self hvar']
-          · split
-            · simp [eraseKey_append_self hvar']
-            · split
-              · simp [eraseKey_append_self hvar']
-              · rename_i _ names hnames _ l hl hl26 hfit _ idx hidx hobj
-                simp only [hvar, hnames, hl, hl26, hidx, hfit, hobj, if_false, Bool.false_eq_true] at h
-                simp at h
+        · simp [eraseKey_append_self hvar']
+        · rename_i _ idx hidx hobj _ v hv
+          simp only [hvar, hidx, hobj, hv, if_false, Bool.false_eq_true] at h
+          simp at h
+
+/-- `add_variable` as a case distinction: either it is refused for its arguments and returns the file itself, or the
+arguments resolve and the result is `addVariableCore` on the file with the group ensured. -/
+theorem addVariable_cases [Cell V] (f : File V) (state geom var : String) (fr : Frame V) (cols : Option (List String))
+    (loc : Option Nat) :
+    ((addVariable f state geom var fr cols loc).1 = f ∧ (addVariable f state geom var fr cols loc).2 ≠ none ∧
+      (f.geoms.lookup geom = none ∨ resolveCols var cols = none ∨ resolveLoc var loc = none ∨
+         (∃ l, resolveLoc var loc = some l ∧ ((l ≠ 2 ∧ l ≠ 6) ∨ varIdsFit l fr = false)))) ∨
+    ∃ g names l, f.geoms.lookup geom = some g ∧ resolveCols var cols = some names ∧ resolveLoc var loc = some l ∧
+      (l = 2 ∨ l = 6) ∧ varIdsFit l fr = true ∧
+      addVariable f state geom var fr cols loc
+        = addVariableCore (ensureGroup f state geom) g state geom var fr names l := by
+  unfold addVariable
+  cases hg : f.geoms.lookup geom with
+  | none => exact Or.inl ⟨rfl, by simp, Or.inl rfl⟩
+  | some g =>
+    cases hc : resolveCols var cols with
+    | none => exact Or.inl ⟨rfl, by simp, Or.inr (Or.inl rfl)⟩
+    | some names =>
+      cases hl : resolveLoc var loc with
+      | none => exact Or.inl ⟨rfl, by simp, Or.inr (Or.inr (Or.inl rfl))⟩
+      | some l =>
+        dsimp only
+        by_cases hl26 : l ≠ 2 ∧ l ≠ 6
+        · rw [if_pos hl26]
+          exact Or.inl ⟨rfl, by simp, Or.inr (Or.inr (Or.inr ⟨l, rfl, Or.inl hl26⟩))⟩
+        · rw [if_neg hl26]
+          cases hfit : varIdsFit l fr with
+          | false =>
+            exact Or.inl ⟨by simp, by simp, Or.inr (Or.inr (Or.inr ⟨l, rfl, Or.inr hfit⟩))⟩
+          | true =>
+            refine Or.inr ⟨g, names, l, rfl, rfl, rfl, by omega, hfit, ?_⟩
+            simp
 
 /-- A successful `add_variable`: what the arguments resolved to and what is stored. -/
 theorem addVariable_ok [Cell V] {f : File V} {state geom var : String} {fr : Frame V} {cols : Option (List String)}
     {loc : Option Nat} (h : (addVariable f state geom var fr cols loc).2 = none) :
-    ∃ names l idx, resolveCols var cols = some names ∧ resolveLoc var loc = some l ∧ (l = 2 ∨ l = 6) ∧
-      colIdx fr.cols names = some idx ∧
+    ∃ g names l idx v, f.geoms.lookup geom = some g ∧ resolveCols var cols = some names ∧ resolveLoc var loc = some l ∧
+      (l = 2 ∨ l = 6) ∧ varIdsFit l fr = true ∧ colIdx fr.cols names = some idx ∧ buildVariable l g fr idx = some v ∧
       (addVariable f state geom var fr cols loc).1.geoms = f.geoms ∧
       (addVariable f state geom var fr cols loc).1.groups.contains (state, geom) = true ∧
-      (addVariable f state geom var fr cols loc).1.vars.lookup (state, geom, var) = some (buildVariable l fr idx) := by
-  unfold addVariable at h ⊢
-  split at h
-  · simp at h
-  · rename_i hgeo
-    simp only [hgeo, if_false, Bool.false_eq_true]
-    obtain ⟨names, l, idx, h1, h2, h3, h4, h5, h6, h7, _⟩ := addVariableCore_ok h
-    obtain ⟨e1, _, e3, _⟩ := ensureGroup_facts f state geom
-    exact ⟨names, l, idx, h1, h2, h3, h4, h5.trans e1, h6 ▸ e3, h7⟩
+      (addVariable f state geom var fr cols loc).1.vars.lookup (state, geom, var) = some v ∧
+      f.vars.lookup (state, geom, var) = none ∧
+      (addVariable f state geom var fr cols loc).1.vars
+        = setKey (state, geom, var) v (f.vars ++ [((state, geom, var), (⟨l, names.length, [], []⟩ : Variable V))]) := by
+  rcases addVariable_cases f state geom var fr cols loc with ⟨_, hne, _⟩ | ⟨g, names, l, hg, hc, hl, hl26, hfit, heq⟩
+  · exact absurd h hne
+  · rw [heq] at h ⊢
+    obtain ⟨idx, v, h1, h2, h3, h4, h5, h6, h7⟩ := addVariableCore_ok h
+    obtain ⟨e1, e2, e3, _⟩ := ensureGroup_facts f state geom
+    exact ⟨g, names, l, idx, v, hg, hc, hl, hl26, hfit, h1, h2, h3.trans e1, h4 ▸ e3, h5, e2 ▸ h6, e2 ▸ h7⟩
 
 /-- A failed `add_variable` leaves geometries and variables as they were; at most the (empty) group
 `(state, geom)` was created. -/
@@ -538,14 +769,31 @@ theorem addVariable_err [Cell V] {f : File V} {state geom var : String} {fr : Fr
     (addVariable f state geom var fr cols loc).1.geoms = f.geoms ∧
       (addVariable f state geom var fr cols loc).1.vars = f.vars ∧
       ∀ p ∈ (addVariable f state geom var fr cols loc).1.groups, p ∈ f.groups ∨ p = (state, geom) := by
-  unfold addVariable at h ⊢
-  split
-  · exact ⟨rfl, rfl, fun p hp => Or.inl hp⟩
-  · rename_i hgeo
-    simp only [hgeo, if_false, Bool.false_eq_true] at h
+  rcases addVariable_cases f state geom var fr cols loc with ⟨hf, _, _⟩ | ⟨g, names, l, _, _, _, _, _, heq⟩
+  · rw [hf]; exact ⟨rfl, rfl, fun p hp => Or.inl hp⟩
+  · rw [heq] at h ⊢
     rw [addVariableCore_err h]
     obtain ⟨e1, e2, _, e4, _⟩ := ensureGroup_facts f state geom
     exact ⟨e1, e2, e4⟩
+
+/-- `add_variable` never touches the geometries. -/
+theorem addVariable_geoms [Cell V] (f : File V) (state geom var : String) (fr : Frame V) (cols : Option (List String))
+    (loc : Option Nat) : (addVariable f state geom var fr cols loc).1.geoms = f.geoms := by
+  cases he : (addVariable f state geom var fr cols loc).2 with
+  | some e => exact (addVariable_err he).1
+  | none =>
+    obtain ⟨_, _, _, _, _, _, _, _, _, _, _, _, h5, _⟩ := addVariable_ok he
+    exact h5
+
+/-- The stored variable depends on the geometry only through the frame the geometry was exported from (not on its sets,
+coordinates, element types). -/
+theorem buildVariable_exported [Cell V] {g : Geometry V} {fr : Frame V} {cidx : List Nat} (hx : ExportedFrom g fr cidx)
+    (l : Nat) (vfr : Frame V) (idx : List Nat) :
+    buildVariable l g vfr idx
+      = buildVariable l ⟨[], 0, [], (connectivity fr.rows).map (fun c => (c.1, 0, c.2)), []⟩ vfr idx := by
+  apply buildVariable_congr
+  rw [hx.elems]
+  simp [List.map_map, Function.comp_def]
 
 /-- A successful `add_node_set` / `add_element_set`. -/
 theorem addSet_ok {f : File V} {kind : Nat} {geom : String} {ids : List Int} {fr : Frame V} {nameOk : Bool}
@@ -658,21 +906,18 @@ theorem buildElements_succeeds {dim : Nat} {fr : Frame V} (h1 : ∀ r ∈ fr.row
   unfold buildElements
   simp only [e1, e2, Bool.not_true, Bool.false_eq_true, if_false, if_true]
 
-theorem addVariableCore_groups [Cell V] (f1 : File V) (state geom var : String) (fr : Frame V)
-    (cols : Option (List String)) (loc : Option Nat) :
-    (addVariableCore f1 state geom var fr cols loc).1.groups = f1.groups ∧
-      (addVariableCore f1 state geom var fr cols loc).1.geoms = f1.geoms := by
-  cases he : (addVariableCore f1 state geom var fr cols loc).2 with
+theorem addVariableCore_groups [Cell V] (f1 : File V) (g : Geometry V) (state geom var : String) (fr : Frame V)
+    (names : List String) (l : Nat) :
+    (addVariableCore f1 g state geom var fr names l).1.groups = f1.groups ∧
+      (addVariableCore f1 g state geom var fr names l).1.geoms = f1.geoms := by
+  cases he : (addVariableCore f1 g state geom var fr names l).2 with
   | some e => rw [addVariableCore_err he]; exact ⟨rfl, rfl⟩
   | none =>
-    obtain ⟨_, _, _, _, _, _, _, h5, h6, _⟩ := addVariableCore_ok he
+    obtain ⟨_, _, _, _, h5, h6, _⟩ := addVariableCore_ok he
     exact ⟨h6, h5⟩
 
-theorem buildVariable_two [Cell V] (fr : Frame V) (idx : List Nat) :
-    buildVariable 2 fr idx = ⟨2, idx.length, nodeIds fr, (nodeIds fr).map (nodeValue fr.rows idx)⟩ := rfl
-
-theorem buildVariable_six [Cell V] (fr : Frame V) (idx : List Nat) :
-    buildVariable 6 fr idx = ⟨6, idx.length, elemIds fr, (byElement fr.rows).map (selRow idx)⟩ := rfl
+theorem buildVariable_two [Cell V] (g : Geometry V) (fr : Frame V) (idx : List Nat) :
+    buildVariable 2 g fr idx = some ⟨2, idx.length, nodeIds fr, (nodeIds fr).map (nodeValue fr.rows idx)⟩ := rfl
 
 /-! ### `GroupBy.first()` on a constant column -/
 
